@@ -1045,7 +1045,8 @@ def _xml_encoded(tier):
                     if quick and variant != 'valid' and dcanon not in (None, canon):
                         continue                # quick tier: damaged variants with a missing or the matching declaration only
                     for nlname, nl in NEWLINES:
-                        if nlname != 'LF' and (variant != 'valid' or (quick and dcanon not in (None, canon))):
+                        if nlname != 'LF' and (variant != 'valid' or (quick and (dcanon not in (None, canon) or label not in
+                                                                                 ('utf-8', 'utf-16-le+bom', 'iso-8859-1')))):
                             continue
                         decl = '' if dname is None else '<?xml version="1.0" encoding="%s"?>%s' % (dname, nl)
                         text = decl + _pretty(root, nl) + nl
@@ -1693,6 +1694,8 @@ def _dict_encoded(tier):
                         for label, codec, bom, yaml_ok, json_ok in D_STORAGE:
                             if variant == 'big' and label not in ('utf-8', 'utf-16-le+bom'):
                                 continue
+                            if quick and label in ('utf-16-le', 'utf-32-le+bom', 'windows-1252'):
+                                continue
                             try:
                                 data = bom + text.encode(codec)
                             except UnicodeEncodeError:
@@ -1753,7 +1756,7 @@ def run_dict(tier, seed):
              'unknown, cased keys) set to each of 26 wrong-typed values and key-specific dates, ids, cardinalities, '
              'dtypes, values; each key removed; list items replaced by wrong types; top-level variations; duplicate '
              'names/ids; random dictionaries; each x DictReader.to_odml strict/lenient, ODMLReader JSON/YAML '
-             'from_string/from_file (YAML from_file is lenient; quick tier: YAML on every fifth set-key case); stored '
+             'from_string/from_file (YAML from_file is lenient; quick tier: YAML on every 8th set-key and 2nd random case); stored '
              'forms of small valid JSON/YAML files: 8 encodings/marks x escaped/raw/indented or flow x content range x '
              'line ends x valid/other version/large, 36 file names, through from_file and odml.load with path str and '
              'pathlib.Path, decoded text through from_string; class = (family, feature, content checksum, entry)',
@@ -1785,8 +1788,8 @@ def run_dict(tier, seed):
                     ytext = yaml.dump(data, Dumper=_YDUMPER, sort_keys=False)
                 except Exception:                # noqa
                     ytext = None
-                if tier == 'quick' and case['fam'] == 'set-key' and ci % 5:
-                    ytext = None                 # quick tier: the (slow) YAML entry points on every fifth set-key case
+                if tier == 'quick' and ((case['fam'] == 'set-key' and ci % 8) or (case['fam'] == 'random-dict' and ci % 2)):
+                    ytext = None                 # quick tier: the (slow) YAML entry points on every 8th set-key, 2nd random case
                 # the text forms must denote the same dictionary, otherwise the case facts do not apply to them
                 if jtext is not None:
                     try:
